@@ -20,35 +20,20 @@
 (***************************************************************************)
 EXTENDS Types, Sequences
 
-(* Exact arithmetic modulo 360 on dyadics.  These are the definitions of C11's model (Hue.tla: Mod360, CanonSigned,
-   CircDist, Congruent, UlpExp) repeated verbatim under a namespace-like prefix: instantiating that module here makes
-   TLC's -coverage run out of memory (its cost model unrolls the recursive operators of the instantiated number
-   library).  MC_Ops asserts that the two sets of definitions agree on the hue lattice. *)
-Prec(t) == IF t = "f32" THEN 24 ELSE 53            \* significand bits
-MinExp(t) == IF t = "f32" THEN -149 ELSE -1074     \* log2 of the smallest positive value
+(* Exact arithmetic modulo 360 on dyadics, and the float formats, are C11's (Hue.tla); that module's state variable
+   is irrelevant here. *)
+HueM == INSTANCE Hue WITH last <- <<"none", "f32">>
+Prec(t) == HueM!Prec(t)                            \* significand bits: 24 / 53
+MinExp(t) == HueM!MinExp(t)                        \* log2 of the smallest positive value
+UlpExp(t, v) == HueM!UlpExp(t, v)                  \* log2 of the unit in the last place of v # 0 stored in type t
+HueMod360(d) == HueM!Mod360(d)                     \* d mod 360 in [0, 360), exact
+HueCircDist(d) == HueM!CircDist(d)                 \* distance from the nearest multiple of 360, in [0, 180]
+HueCongruent(x1, x2) == HueM!Congruent(x1, x2)     \* the same point of the circle
+HueCanonSigned(x) == HueM!CanonSigned(x)           \* the representative in (-180, 180]
 D0 == DyZero
 D1 == DyFromInt(1)
 D180 == DyFromInt(180)
 D360 == DyFromInt(360)
-LOCAL MinI(a, b) == IF a <= b THEN a ELSE b
-LOCAL MaxI(a, b) == IF a >= b THEN a ELSE b
-(* the fractional part of |d| as a Dy in [0, 1) *)
-HueFracMag(d) ==
-  IF d[1] = 0 \/ d[2] >= 0 THEN DyZero
-  ELSE LET low == Norm(SubSeq(d[3], 1, MinI(-d[2], Len(d[3]))))
-       IN IF low = <<>> THEN DyZero ELSE <<1, d[2], low>>
-(* x mod 360 in [0, 360), exact *)
-HueMod360(d) ==
-  IF d[1] = 0 THEN DyZero
-  ELSE LET rp == DyAdd(DyFromInt(ModSmall(DyTruncMag(d), 360)), HueFracMag(d))
-       IN IF d[1] > 0 \/ DyIsZero(rp) THEN rp ELSE DySub(D360, rp)
-(* distance of d from the nearest multiple of 360, in [0, 180] *)
-HueCircDist(d) == LET r == HueMod360(d) IN DyMin(r, DySub(D360, r))
-HueCongruent(x1, x2) == DyIsZero(HueMod360(DySub(x1, x2)))
-(* the representative in (-180, 180] *)
-HueCanonSigned(x) == LET r == HueMod360(x) IN IF DyLe(r, D180) THEN r ELSE DySub(r, D360)
-(* log2 of the unit in the last place of a value v # 0 stored in type t *)
-UlpExp(t, v) == MaxI(DyLog2(v) - (Prec(t) - 1), MinExp(t))
 Absent(b) == b = <<>>
 
 Mag2(a, b) == DyMax(DyAbs(a), DyAbs(b))
@@ -178,17 +163,21 @@ Within(node, c, lo, hi) == /\ \A i \in DOMAIN c : CompWithin(c[i], lo[i], hi[i])
 -----------------------------------------------------------------------------
 (* Part 3: judging what the implementation returned *)
 
-(* TOLERANCE Arith(k): |returned - exact| <= k * 2^-Prec * M + (smallest positive value), M the largest
-   magnitude among the inputs and the exact intermediates of the formula.  One correctly rounded operation
-   errs by at most half an ulp <= 2^-Prec * |value|; mix is 3 operations, relative lighten 3, the hue mix 8
-   (difference, normalisation = add, divide, subtract, multiply, subtract; scale; add): principled bound
-   Arith(8).  Calibration on the pinned tree (evidence: max_deviation_observed, in units of 2^-Prec * M):
-   see ArithK below - at least 8 x the largest deviation observed. *)
+(* TOLERANCE Arith(k): |returned - exact| <= k * 2^-Prec * M (or at most the smallest positive value of the type),
+   M the largest magnitude among the inputs and the exact intermediates of the formula.  One correctly rounded
+   operation errs by at most half an ulp <= 2^-Prec * |value|; mix is 3 operations, relative lighten 3, the hue mix 8
+   (difference; normalisation = add, divide, subtract, multiply, subtract; scale; add): principled bound Arith(8).
+   Calibration on the pinned tree (thorough tier, 2.3 million calls; evidence: max_deviation_observed, in units of
+   2^-Prec * M): mix component 1.43, mix hue 1.19, relative lighten 1.33, fixed lighten 0.92, saturate 0.72,
+   add/sub/mul 1.00, hue shift 0.93, mixed component outside the two inputs by 1.25.  Arith(16) is 11 x the largest. *)
 ArithK == 16
-Tol(t, M) == DyAdd(DyMulInt(DyMulPow2(M, -Prec(t)), ArithK), DyPow2(MinExp(t)))
-Near(t, x, y, M) == DyLe(DyAbs(DySub(x, y)), Tol(t, M))
-(* angles: equal as points of the circle *)
-NearAngle(t, x, y, M) == DyLe(HueCircDist(DySub(x, y)), Tol(t, DyMax(M, D360)))
+TolRel(t, M) == DyMulInt(DyMulPow2(M, -Prec(t)), ArithK)
+(* the absolute floor (results in the subnormal range) is a separate disjunct: adding 2^MinExp to every tolerance
+   would align every comparison at 2^-1074 (83 limbs) *)
+Near(t, x, y, M) == LET d == DyAbs(DySub(x, y)) IN DyLe(d, TolRel(t, M)) \/ DyLe(d, DyPow2(MinExp(t)))
+(* angles: equal as points of the circle; magnitudes of at least a turn are involved in every normalisation *)
+TolAngle(t, M) == TolRel(t, DyMax(M, D360))
+NearAngle(t, x, y, M) == DyLe(HueCircDist(DySub(x, y)), TolAngle(t, M))
 
 (* ---- Mix *)
 MixCompOK(t, a, b, f, out) == Near(t, out, MixLin(a, b, f), Mag3(a, b, DySub(b, a)))
@@ -197,7 +186,7 @@ MixCompOK(t, a, b, f, out) == Near(t, out, MixLin(a, b, f), Mag3(a, b, DySub(b, 
 MixHueOK(t, ha, hb, f, out) ==
   LET d == DySub(hb, ha)  r == HueCanonSigned(d)
       M == DyMax(Mag3(ha, hb, d), D360)
-      opposite == DyLe(DySub(D180, DyAbs(r)), Tol(t, M))
+      opposite == DyLe(DySub(D180, DyAbs(r)), TolAngle(t, M))
   IN \/ NearAngle(t, out, MixHueWith(ha, r, f), M)
      \/ opposite /\ NearAngle(t, out, MixHueWith(ha, OtherWay(r), f), M)
 MixOK(node, t, a, b, f, out) ==
@@ -205,10 +194,10 @@ MixOK(node, t, a, b, f, out) ==
 
 (* betweenness, up to rounding: component-wise between the two inputs; the hue on the shorter arc between the two
    hues (x is on a shortest arc from p to q iff dist(p, x) + dist(x, q) = dist(p, q) on the circle) *)
-BetweenComp(t, a, b, out) == LET s == Tol(t, Mag3(a, b, DySub(b, a)))
+BetweenComp(t, a, b, out) == LET s == TolRel(t, Mag3(a, b, DySub(b, a)))
                              IN DyLe(DySub(DyMin(a, b), s), out) /\ DyLe(out, DyAdd(DyMax(a, b), s))
 BetweenHue(t, ha, hb, out) ==
-  LET s == Tol(t, DyMax(Mag3(ha, hb, DySub(hb, ha)), D360))
+  LET s == TolAngle(t, Mag3(ha, hb, DySub(hb, ha)))
   IN DyLe(DyAdd(HueCircDist(DySub(out, ha)), HueCircDist(DySub(hb, out))), DyAdd(HueCircDist(DySub(hb, ha)), s))
 Between(node, t, a, b, out) ==
   \A i \in DOMAIN a : IF i = HueIdx(node) THEN BetweenHue(t, a[i], b[i], out[i]) ELSE BetweenComp(t, a[i], b[i], out[i])
@@ -249,8 +238,8 @@ SchemeHueOK(node, t, c, m, k, out) ==
 
 (* ---- arithmetic: one correctly rounded operation per component *)
 DivOK(t, n, d, out) ==
-  DyIsZero(d) \/ DyLe(DyAbs(DySub(DyMul(out, d), n)),
-                      DyAdd(DyMulInt(DyMulPow2(DyAbs(n), -Prec(t)), ArithK), DyMul(DyAbs(d), DyPow2(MinExp(t)))))
+  \/ DyIsZero(d)
+  \/ LET e == DyAbs(DySub(DyMul(out, d), n)) IN DyLe(e, TolRel(t, DyAbs(n))) \/ DyLe(e, DyMul(DyAbs(d), DyPow2(MinExp(t))))
 ArithCompOK(tr, t, x, y, out) ==
   IF tr = "Div" THEN DivOK(t, x, y, out)
   ELSE LET e == Arith2(tr, x, y) IN Near(t, out, e, Mag3(x, y, e))
